@@ -176,6 +176,34 @@ def calibrateTnrCode (r : K) (l : List (K × Bool)) : Option (Nat × K) :=
   (argmaxPos (fun i => fpAt s s.length - fpAt s i) (fun i => realisablePos s i && tprOkCode s r i) s.length).map
     fun i => (i, thrAtPos s i)
 
+/-! ### the F-beta strategy (`precision_recall_curve` + the F-beta formula + `NaN → 0` + first arg-max) -/
+
+/-- the F-beta value the code computes from counts: `precision = tps/(tps+fps)` (0 when nothing is accepted),
+`recall = tps/tps[-1]` (1 when there is no positive pair), `(1+β²)·(P·R)/(β²·P + R)`, `NaN` (0/0) replaced by 0 -/
+def fbetaFromCounts (beta : K) (tp fp nPos : Nat) : K :=
+  let precision : K := if tp + fp = 0 then 0 else Scalar.ofNat tp / Scalar.ofNat (tp + fp)
+  let recall : K := if nPos = 0 then 1 else Scalar.ofNat tp / Scalar.ofNat nPos
+  let num := (1 + beta * beta) * (precision * recall)
+  let den := beta * beta * precision + recall
+  if den ≤ 0 ∧ 0 ≤ den then 0 else num / den
+
+/-- first arg-max of a scalar-valued `f` over `0..n` restricted to positions satisfying `ok` -/
+def argmaxPosK (f : Nat → K) (ok : Nat → Bool) : Nat → Option Nat
+  | 0 => if ok 0 then some 0 else none
+  | n+1 =>
+    match argmaxPosK f ok n with
+    | none => if ok (n+1) then some (n+1) else none
+    | some b => if ok (n+1) && decide (f b < f (n+1)) then some (n+1) else some b
+
+/-- `strategy='f_beta'`: the candidates of `precision_recall_curve` are the realisable cut-offs that accept at least one
+pair, scanned from "accept all" towards the nearest pair (thresholds increasing in score); first arg-max -/
+def calibrateFbetaCode (beta : K) (l : List (K × Bool)) : Option (Nat × K) :=
+  let s := sortByDist l
+  let n := s.length
+  let nPos := tpAt s n
+  (argmaxPosK (fun j => fbetaFromCounts beta (tpAt s (n - j)) (fpAt s (n - j)) nPos)
+      (fun j => decide (1 ≤ n - j) && realisablePos s (n - j)) n).map fun j => (n - j, thrAtPos s (n - j))
+
 /-- true / false positives when predicting with threshold `t`; number of negative / positive validation pairs -/
 def tpOf (l : List (K × Bool)) (t : K) : Nat := (l.filter fun p => decide (p.1 ≤ t) && p.2).length
 def fpOf (l : List (K × Bool)) (t : K) : Nat := (l.filter fun p => decide (p.1 ≤ t) && !p.2).length
